@@ -69,6 +69,11 @@ def r18_1(ctx: Ctx):
         it = _core_iter(it) if it is not None else None
         if isinstance(it, ast.Call) and isinstance(it.func, ast.Attribute) and isinstance(it.func.value, ast.Name) and it.func.value.id == f.self_name():
             return [ctx.ob("R18.1", f, L["stmt"], status=INCONCLUSIVE, detail=f"the demes to step are chosen by `{norm(it)[:60]}`, which this rule does not follow", construct="opaque-source")]
+    from .common import opaque_deme_calls
+
+    oc = opaque_deme_calls(ctx, f, f.node, "_hibernating")
+    if oc and not any(_mentions_flag(n.ast) for n in cfg.nodes if n.kind == "cond" and n.ast is not None):
+        return [ctx.ob("R18.1", f, oc[0], status=INCONCLUSIVE, detail=f"the hibernation test is made inside `{norm(oc[0].func)}`, which this rule does not follow", construct="opaque-test")]
     viol = []
     unknown = []
 
@@ -193,7 +198,10 @@ def r18_2(ctx: Ctx):
             ok = _dominated_by_option_on(cfg, node, opt_defs)
             obs.append(ctx.ob("R18.2", f, n, status=OK if ok else VIOLATION, detail="flag written only with the hibernation option on" if ok else "the hibernation flag is written on a path on which the option is not known to be on (a deme can hibernate with hibernation disabled)"))
         else:
-            obs.append(ctx.ob("R18.2", f, n, status=VIOLATION, detail=f"`_hibernating` is written by {f.short}; only AbstractDeme.__init__ and DemeTree.run_sprout may"))
+            from .common import private_closure
+
+            behind = f.qualname in private_closure(ctx, {rs.qualname})
+            obs.append(ctx.ob("R18.2", f, n, status=INCONCLUSIVE if behind else VIOLATION, detail=f"`_hibernating` is written by {f.short}, a private helper reached only from run_sprout: under which option state is not followed" if behind else f"`_hibernating` is written by {f.short}; only AbstractDeme.__init__ and DemeTree.run_sprout may"))
     return obs
 
 
@@ -245,7 +253,10 @@ def r18_3(ctx: Ctx):
     obs.append(ctx.ob("R18.3", f, sdefs[0] if sdefs else f.node, status=OK if ok_src else VIOLATION if (len(sdefs) != 1 or isinstance(sdefs[0], (ast.Dict, ast.DictComp))) else INCONCLUSIVE, detail=f"`{seeds_name}` = sprout_mechanism.get_seeds(tree), passed unchanged to _do_sprout" if ok_src else f"the seeds mapping `{seeds_name}` is not exactly what get_seeds(tree) returned", construct="seeds-provenance"))
     stores = [(n, n.ast) for n in cfg.nodes if n.kind == "stmt" and any(isinstance(t, ast.Attribute) and t.attr == "_hibernating" for t in (n.ast.targets if isinstance(n.ast, ast.Assign) else []))]
     if not stores:
-        obs.append(ctx.ob("R18.3", f, f.node, status=VIOLATION, detail="run_sprout never writes the hibernation flag: demes neither fall asleep nor wake up", construct="no-flag-store"))
+        from .common import opaque_deme_calls
+
+        oc = opaque_deme_calls(ctx, f, f.node, "_hibernating")
+        obs.append(ctx.ob("R18.3", f, oc[0] if oc else f.node, status=INCONCLUSIVE if oc else VIOLATION, detail=f"the hibernation flag is handled inside `{norm(oc[0].func)}`, which this rule does not follow" if oc else "run_sprout never writes the hibernation flag: demes neither fall asleep nor wake up", construct="no-flag-store"))
         return obs
     for node, st in stores:
         val = st.value.value if isinstance(st.value, ast.Constant) else None
